@@ -66,7 +66,9 @@ func (t *transport) Listener() net.Listener {
 func (t *transport) serve() (err error) {
 	network.UnlinkUdsFile(t.network, t.addr) //nolint:errcheck
 	t.mu.Lock()
-	if t.listenConfig != nil {
+	if ln, lerr, ok := verifListen(t.network, t.addr); ok {
+		t.ln, err = ln, lerr
+	} else if t.listenConfig != nil {
 		t.ln, err = t.listenConfig.Listen(context.Background(), t.network, t.addr)
 	} else {
 		t.ln, err = net.Listen(t.network, t.addr)
